@@ -87,7 +87,7 @@ type actCall struct {
 	tag      string
 	short    bool
 	deflt    bool // requested with time-out 0: the library's default of 3 s applies
-	serial   int // platform serial the terminal saw for it (-1 unknown)
+	serial   int  // platform serial the terminal saw for it (-1 unknown)
 	result   string
 	elapsed  int
 	started  time.Time
